@@ -572,12 +572,10 @@ Proof.
   - split; [discriminate|]. intros (t & E & _). discriminate.
 Qed.
 
-(* one answer per command; an answer that is not the expected one belongs to the LAST command the operation issued, and the
-   operation ended in an error *)
+(* one answer per command; if any answer is not the expected one the operation ended in an error *)
 Definition errors_rule (cmds : list qcmd) (rvs : list (option N)) (class : N) : Prop :=
   length cmds = length rvs
-  /\ forall i qc rv, nth_error cmds i = Some qc -> nth_error rvs i = Some rv -> ~ expected_answer qc rv ->
-       class = 1 /\ S i = length cmds.
+  /\ forall i qc rv, nth_error cmds i = Some qc -> nth_error rvs i = Some rv -> ~ expected_answer qc rv -> class = 1.
 
 Lemma resp_ok_rule : forall cmds rvs class, resp_ok cmds rvs class = true <-> errors_rule cmds rvs class.
 Proof.
@@ -590,16 +588,14 @@ Proof.
     + rewrite IH. cbn [length]. split.
       * intros [L H]. split; [now rewrite L|]. intros [|i] qc r Hc Hr Hn; cbn [nth_error] in Hc, Hr.
         { injection Hc as <-. injection Hr as <-. exfalso. apply Hn. now apply good1_iff. }
-        { destruct (H i qc r Hc Hr Hn) as [A B]. split; [exact A|now rewrite B]. }
-      * intros [L H]. split; [now injection L|]. intros i qc r Hc Hr Hn.
-        destruct (H (S i) qc r Hc Hr Hn) as [A B]. split; [exact A|now injection B].
-    + split.
-      * intros H. apply andb_prop in H. destruct H as [H H3]. apply andb_prop in H. destruct H as [H1 H2]. apply N.eqb_eq in H1.
-        destruct cs; [|discriminate]. destruct rs; [|discriminate]. split; [reflexivity|].
-        intros [|[|i]] qc r Hc Hr _; cbn [nth_error] in Hc; try discriminate Hc. split; [exact H1|reflexivity].
+        { exact (H i qc r Hc Hr Hn). }
+      * intros [L H]. split; [now injection L|]. intros i qc r Hc Hr Hn. exact (H (S i) qc r Hc Hr Hn).
+    + rewrite andb_true_iff, IH, N.eqb_eq. cbn [length]. split.
+      * intros [H1 [L H]]. split; [now rewrite L|]. intros [|i] qc r Hc Hr Hn; cbn [nth_error] in Hc, Hr; [exact H1|].
+        exact (H i qc r Hc Hr Hn).
       * intros [L H]. assert (Hn : ~ expected_answer c rv) by (intro E; apply good1_iff in E; congruence).
-        destruct (H 0%nat c rv eq_refl eq_refl Hn) as [A B]. cbn [length] in B, L.
-        destruct cs; [|discriminate B]. destruct rs; [|discriminate L]. subst class. reflexivity.
+        split; [exact (H 0%nat c rv eq_refl eq_refl Hn)|]. split; [now injection L|].
+        intros i qc r Hc Hr Hn'. exact (H (S i) qc r Hc Hr Hn').
 Qed.
 
 (* answered requests as the harness writes them: [cursor queue?; answered (0 = the transport call failed, otherwise a response
@@ -638,14 +634,13 @@ Theorem mon_errors_meaning ins : mon_errors ins = true ->
   exists class items cmds,
     ins = class :: flat_ans items /\ Forall2 ans_decodes_to items cmds
     /\ forall i qc it, nth_error cmds i = Some qc -> nth_error items i = Some it -> ~ expected_answer qc (ans_view it) ->
-         class = 1 /\ S i = length items.
+         class = 1.
 Proof.
   unfold mon_errors. intros H. destruct ins as [|class rest]; [discriminate H|].
   destruct (take_answered (length rest) rest) as [[cs rs]|] eqn:Et; [|discriminate H].
   destruct (take_answered_inv _ _ _ _ (le_n _) Et) as (items & E1 & E2 & E3).
   apply resp_ok_rule in H. destruct H as [L H]. exists class, items, cs. split; [now rewrite E1|]. split; [exact E2|].
-  intros i qc it Hc Hi Hn. subst rs. destruct (H i qc (ans_view it) Hc (map_nth_error ans_view i items Hi) Hn) as [A B].
-  split; [exact A|]. rewrite B, L. apply map_length.
+  intros i qc it Hc Hi Hn. subst rs. exact (H i qc (ans_view it) Hc (map_nth_error ans_view i items Hi) Hn).
 Qed.
 
 (* HOLDS OF THE MODEL: the line written from the requests of a model run and the answers it consumed *)
@@ -1063,11 +1058,12 @@ Proof. repeat split. Qed.
 (* ------------------------------------------------------------------------------------------------ *)
 (* AUDIT witnesses (the monitor definitions are left as they are; see the builder's report)            *)
 
-(* 2022 demands MORE than "returns an error for any response that is not the expected success type": a driver that, after an
+(* 2022 says "returns an error for any response that is not the expected success type" and no more: a driver that, after an
    error answer to RESOURCE_ATTACH_BACKING, still sends RESOURCE_UNREF for the resource it had created (a clean-up) and then
-   returns the error is refused, because the unexpected answer is not the LAST request *)
-Example mon_errors_rejects_cleanup_after_an_error_answer :
-  mon_errors (1 :: [0; 1; 4608; 48] ++ enc_req (RAttach 47806 4096 4096) ++ [0; 1; 4352; 32] ++ enc_req (RUnref 47806)) = false
+   returns the error passes. (As first written the monitor refused this line, because the unexpected answer was not the LAST
+   request; that clause was removed from Model/GpuSpec.v resp_ok.) *)
+Example mon_errors_accepts_cleanup_after_an_error_answer :
+  mon_errors (1 :: [0; 1; 4608; 48] ++ enc_req (RAttach 47806 4096 4096) ++ [0; 1; 4352; 32] ++ enc_req (RUnref 47806)) = true
   /\ mon_errors (1 :: [0; 1; 4608; 48] ++ enc_req (RAttach 47806 4096 4096)) = true.
 Proof. split; vm_compute; reflexivity. Qed.
 
